@@ -7,3 +7,4 @@ INVARIANT ArgMutOK
 INVARIANT CopyFaithfulOK
 INVARIANT CopyDisjointOK
 INVARIANT HistOK
+INVARIANT PureOK
